@@ -209,14 +209,21 @@ func extraInputs(r *vlib.Run, p *pool) (compute func(), record func()) {
 	cdb3 := []setting{{B: dnsfix.CDB, W: 1}, {B: dnsfix.CDB, W: 2}, {B: dnsfix.CDB, W: 3}}
 
 	var jobs []execJob
-	// (c): all three CDB worker counts on every file; one RocksDB setting on every file with the line alone and
-	// on every third of the others, rotating through the 54 settings of the grid
-	nRdb := 0
+	// (c): the parser is shared by all compilers, so CDB (cheap) carries the family: all three worker counts on
+	// the files with the line alone, one (rotating) on the others; one RocksDB setting, rotating through the 54
+	// of the grid, on every second file with the line alone
+	nRdb, nAlone := 0, 0
 	for i, f := range lex {
-		sets := append([]setting(nil), cdb3...)
-		if f.Ctx == 0 || i%3 == 0 {
-			sets = append(sets, rdbSetting(nRdb))
-			nRdb++
+		var sets []setting
+		if f.Ctx == 0 {
+			sets = append(sets, cdb3...)
+			if nAlone%2 == 0 {
+				sets = append(sets, rdbSetting(nRdb))
+				nRdb++
+			}
+			nAlone++
+		} else {
+			sets = append(sets, cdb3[(i/len(lexContexts)+f.Ctx)%3])
 		}
 		jobs = append(jobs, execJob{ID: len(jobs), Text: f.Text, Settings: sets})
 	}
@@ -230,13 +237,11 @@ func extraInputs(r *vlib.Run, p *pool) (compute func(), record func()) {
 		jobs = append(jobs, execJob{ID: len(jobs), Text: f.Text, Settings: sets})
 	}
 	heavyN := len(jobs)
-	// (e): CDB 1-3 and RocksDB batches with 1, 2 and 3 workers (key layout and batch size rotating)
+	// (e): CDB 1-3 and one RocksDB batch setting (workers, key layout, batch size and parallelism rotating)
 	for i, f := range medium {
 		sets := append([]setting(nil), cdb3...)
-		for w := 1; w <= 3; w++ {
-			b := []dnsfix.Backend{dnsfix.RDBv1, dnsfix.RDBv2}[(i+w)%2]
-			sets = append(sets, setting{B: b, W: w, BSize: []int{0, 1, 2, 3}[(i+w)%4], BPar: 1 + (i+w)%2})
-		}
+		b := []dnsfix.Backend{dnsfix.RDBv1, dnsfix.RDBv2}[(i/5)%2]
+		sets = append(sets, setting{B: b, W: 1 + (i/5+i)%3, BSize: []int{0, 1, 2, 3}[(i/5+i/3)%4], BPar: 1 + (i/5+i)%2})
 		jobs = append(jobs, execJob{ID: len(jobs), Text: f.Text, Settings: sets})
 	}
 
@@ -406,7 +411,7 @@ func extraInputs(r *vlib.Run, p *pool) (compute func(), record func()) {
 			bn = append(bn, fmt.Sprintf("%s=%q", b.Name, b.Text))
 		}
 		r.Set("lexical_bases", bn)
-		addRule(fmt.Sprintf("(c) lexical: %d base lines (A with and without TTL / location / empty trailing fields, TXT with an inner blank and an inner '#', subnet with and without map, map assignment, SOA, comment, '#', the empty line, 1- and 2-byte lines, a rejected 1- and 2-byte line) x %d prefixes (none, SP, SPSP, TAB, SP TAB, TAB SP) x %d suffixes (none, SP, SPSP, TAB, CR i.e. CRLF, SP CR, CR CR, FF, NBSP, ',', ',,') x %d contexts (alone; between two ordinary lines; last line without final newline) = %d files, each compiled by CDB with 1-3 workers and %d of them by one RocksDB setting rotating through the 54 of the grid. The reference gets the line exactly as the file has it: split at newlines, one CR before the newline dropped, leading spaces dropped, lines of <2 bytes and lines starting with '#' skipped - nothing else is removed. Non-trivial = stripping the line's surrounding white space would change the reference (%d files). Reported: per failure kind, the minimal decorations (no file with one decoration character less, or with the line alone, fails in the same way). (d) range-heavy: %d files with up to %d range points in one map and up to 5 maps; CDB 1-3 + builder and batches (size 1, 50, default) for both key layouts. (e) %d files of 9-13, 19-24, 29-35 and 64 lines (around the capacity workers*10 of the parser's line channel) with no rejected line or rejected lines first / first three / middle / last; CDB 1-3 + RocksDB batches with 1-3 workers.",
+		addRule(fmt.Sprintf("(c) lexical: %d base lines (A with and without TTL / location / empty trailing fields, TXT with an inner blank and an inner '#', subnet with and without map, map assignment, SOA, comment, '#', the empty line, 1- and 2-byte lines, a rejected 1- and 2-byte line) x %d prefixes (none, SP, SPSP, TAB, SP TAB, TAB SP) x %d suffixes (none, SP, SPSP, TAB, CR i.e. CRLF, SP CR, CR CR, FF, NBSP, ',', ',,') x %d contexts (alone; between two ordinary lines; last line without final newline) = %d files, compiled by CDB (the parser is common to all compilers) with 1-3 workers when the line is alone, with one worker count (rotating) otherwise, and %d of the files with the line alone also by one RocksDB setting rotating through the 54 of the grid. The reference gets the line exactly as the file has it: split at newlines, one CR before the newline dropped, leading spaces dropped, lines of <2 bytes and lines starting with '#' skipped - nothing else is removed. Non-trivial = stripping the line's surrounding white space would change the reference (%d files). Reported: per failure kind, the minimal decorations (no file with one decoration character less, or with the line alone, fails in the same way). (d) range-heavy: %d files with up to %d range points in one map and up to 5 maps; CDB 1-3 + builder and batches (size 1, 50, default) for both key layouts. (e) %d files of 9-13, 19-24, 29-35 and 64 lines (around the capacity workers*10 of the parser's line channel) with no rejected line or rejected lines first / first three / middle / last; CDB 1-3 + one RocksDB batch setting (workers 1-3, key layout, batch size and parallelism rotating).",
 			len(lexBases), len(lexPrefixes), len(lexSuffixes), len(lexContexts), len(lex), nRdb, lexNontrivial, len(heavy), heavyMaxPoints, len(medium)))
 	}
 	return compute, record
